@@ -944,10 +944,12 @@ class ClassProvides(Declaration, ClassProvidesBase):
     def __init__(self, cls, metacls, *interfaces):
         self._cls = cls
         self._implements = implementedBy(cls)
-        self.__args = (cls, metacls, ) + interfaces
-        Declaration.__init__(
-            self, *self._add_interfaces_to_cls(interfaces, metacls)
-        )
+        bases = self._add_interfaces_to_cls(interfaces, metacls)
+        # Like ``Provides``: what we pickle (and show) is what is
+        # declared here, without the interfaces stripped as redundant
+        # because the metaclass implements them right now.
+        self.__args = (cls, metacls, ) + bases[:-1]
+        Declaration.__init__(self, *bases)
 
     def __repr__(self):
         # There are two common ways to get instances of this object: The most
